@@ -1,1 +1,1038 @@
-(* placeholder: to be written *)
+(** Access model for C19 (authorisation and pause across all contracts).
+
+    Two layers, both executable (no proofs in this file):
+
+    1. Guard primitives, for ALL callers: a caller is described by [facts] (is it the chain owner,
+       which [Permissions] bits does it hold in the contract, which configured counterparties is it,
+       is it authorised / blacklisted in the permissions hub); [guard_ok] mirrors the code of the
+       guard modules (permissions_module::require_caller_any_of, #[only_owner],
+       sc_whitelist_module / WhitelistMapper, permissions_hub_module::require_user_whitelisted,
+       the `caller == configured address` comparisons), [state_ok] mirrors the state checks
+       (pausable::State, multiversx_sc_modules::pause, pair is_state_active / can_swap,
+       base_farm_validation).  Small state machines for the permissions module + pausable module
+       ([pm_step]) and for dex/permissions-hub ([hub_step]) mirror those contracts' endpoints.
+
+    2. The access table: one row per externally callable function (and per "acting for somebody
+       else" argument variant) of every contract in scope, giving its guard, its state requirement
+       and its kind.  [verdict] is what a call of that row must do for a caller role in a contract
+       state; tools/sys_access.py executes every cell on the real contracts and Run/AccessRun.v
+       compares.  Gen/Endpoints.v (regenerated from the Rust sources on every run) is the inventory
+       the table must cover (Proofs/AccessProofs.v: inventory_covered). *)
+From Coq Require Import ZArith List Bool String.
+From MX Require Import Base.Prelude Gen.Params Gen.Endpoints.
+Import ListNotations.
+Open Scope Z_scope.
+
+(** ------------------------------------------------------------------ contracts *)
+Inductive contract :=
+| CPair | CRouter | CFarm | CFarmLocked | CStaking | CStakingProxy | CEnergy | CUnstake | CLkmex
+| CWrapper | CProxyDex | CSimpleLock | CFees | CGov | CPriceDisc | CHub.
+
+Definition all_contracts : list contract :=
+  [CPair; CRouter; CFarm; CFarmLocked; CStaking; CStakingProxy; CEnergy; CUnstake; CLkmex;
+   CWrapper; CProxyDex; CSimpleLock; CFees; CGov; CPriceDisc; CHub].
+
+(** the code name used by the executor and by Gen/Endpoints.v *)
+Definition contract_name (c : contract) : string :=
+  match c with
+  | CPair => "pair" | CRouter => "router" | CFarm => "farm"
+  | CFarmLocked => "farm-with-locked-rewards" | CStaking => "farm-staking"
+  | CStakingProxy => "farm-staking-proxy" | CEnergy => "energy-factory"
+  | CUnstake => "token-unstake" | CLkmex => "lkmex-transfer" | CWrapper => "locked-token-wrapper"
+  | CProxyDex => "proxy_dex" | CSimpleLock => "simple-lock" | CFees => "fees-collector"
+  | CGov => "governance-v2" | CPriceDisc => "price-discovery" | CHub => "permissions-hub"
+  end%string.
+
+Definition contract_id (c : contract) : Z :=
+  match c with
+  | CPair => 0 | CRouter => 1 | CFarm => 2 | CFarmLocked => 3 | CStaking => 4 | CStakingProxy => 5
+  | CEnergy => 6 | CUnstake => 7 | CLkmex => 8 | CWrapper => 9 | CProxyDex => 10 | CSimpleLock => 11
+  | CFees => 12 | CGov => 13 | CPriceDisc => 14 | CHub => 15
+  end.
+
+Definition contract_eqb (a b : contract) : bool := contract_id a =? contract_id b.
+
+(** ------------------------------------------------------------------ callers *)
+(** Configured counterparties: addresses a contract compares the caller with (or keeps in a
+    whitelist of contracts). *)
+Inductive party :=
+| PWhitelistedSC   (* sc_whitelist_module::scWhitelistAddresses; the pair's own `whitelist` *)
+| PRouter          (* pair: router_address (holds OWNER|PAUSE permission bits, is not the chain owner) *)
+| PUnstakeSC       (* energy factory: token_unstake_sc_address *)
+| POldFactory      (* energy factory: old_locked_asset_factory_address *)
+| PTransferSC      (* energy factory: token_transfer_whitelist *)
+| PEnergyFactory   (* token-unstake: energy_factory_address *)
+| PKnownContract   (* fees collector: known_contracts *)
+| PAdder           (* pair: initial_liquidity_adder *)
+| PProposer.       (* governance: the proposal's proposer *)
+
+Definition party_id (p : party) : Z :=
+  match p with
+  | PWhitelistedSC => 0 | PRouter => 1 | PUnstakeSC => 2 | POldFactory => 3 | PTransferSC => 4
+  | PEnergyFactory => 5 | PKnownContract => 6 | PAdder => 7 | PProposer => 8
+  end.
+Definition party_eqb (a b : party) : bool := party_id a =? party_id b.
+
+(** The caller roles of the executed matrix.  [RAgentAuth] was whitelisted in the permissions hub by
+    the position owner; [RAgentRevoked] was whitelisted and then removed by the owner;
+    [RAgentBlack] is whitelisted by the owner but blacklisted by the hub's owner. *)
+Inductive role :=
+| ROwner | RAdmin | RPauser | RUser | RAgentAuth | RAgentRevoked | RAgentBlack
+| RParty (p : party).
+
+Definition role_id (r : role) : Z :=
+  match r with
+  | ROwner => 0 | RAdmin => 1 | RPauser => 2 | RUser => 3 | RAgentAuth => 4 | RAgentRevoked => 5
+  | RAgentBlack => 6 | RParty p => 10 + party_id p
+  end.
+Definition role_eqb (a b : role) : bool := role_id a =? role_id b.
+
+Definition base_roles : list role := [ROwner; RAdmin; RPauser; RUser; RAgentAuth; RAgentRevoked; RAgentBlack].
+
+(** what a guard can see of a caller *)
+Record facts := mkFacts {
+  cf_chain_owner : bool;          (* blockchain().get_owner_address() == caller *)
+  cf_perms : Z;                   (* permissions(caller), a bit set of PERM_OWNER / PERM_ADMIN / PERM_PAUSE *)
+  cf_party : party -> bool;       (* caller == the configured counterparty / is in that whitelist *)
+  cf_hub_listed : bool;           (* caller is in whitelist(user) of the permissions hub *)
+  cf_hub_black : bool             (* caller is in the hub's blacklist *)
+}.
+
+(** ------------------------------------------------------------------ guards *)
+Inductive guard :=
+| GLifecycle           (* init / upgrade: reachable only through deployment / upgrade (protocol rule) *)
+| GOnlyOwner           (* #[only_owner] *)
+| GPerm (mask : Z)     (* permissions_module::require_caller_any_of(mask) *)
+| GParty (p : party)   (* caller must be that counterparty *)
+| GOwnerOrOpen         (* router: the owner, or anybody once pair creation is enabled *)
+| GHub                 (* permissions_hub_module::require_user_whitelisted(user, caller) *)
+| GNobody              (* allow_external_claim(user): a flag no endpoint can set *)
+| GQuery               (* require_queried: caller == the contract itself (VM query) *)
+| GAnyone.
+
+(** permissions_module::require_caller_any_of — `caller_permissions.intersects(permissions)` *)
+Definition intersects (caller_perms mask : Z) : bool := negb (Z.land caller_perms mask =? 0).
+Definition require_any_of (caller_perms mask : Z) : result unit :=
+  check intersects caller_perms mask else EPerm; Ok tt.
+
+(** permissions hub: dex/permissions-hub is_whitelisted *)
+Definition hub_authorised (f : facts) : bool := negb (cf_hub_black f) && cf_hub_listed f.
+
+(** pair creation by non-owners is a configuration flag of the router (false after init) *)
+Definition guard_ok (open : bool) (g : guard) (f : facts) : bool :=
+  match g with
+  | GLifecycle => false
+  | GOnlyOwner => cf_chain_owner f
+  | GPerm m => intersects (cf_perms f) m
+  | GParty p => cf_party f p
+  | GOwnerOrOpen => cf_chain_owner f || open
+  | GHub => hub_authorised f
+  | GNobody => false
+  | GQuery => false
+  | GAnyone => true
+  end.
+
+(** Acting for another user [u]: either the `opt_orig_caller` argument (get_orig_caller_from_opt:
+    the caller must be a whitelisted contract) or an ...OnBehalf endpoint (hub rule). *)
+Inductive behalf_path := ViaOrigCallerArg | ViaOnBehalfEndpoint.
+Definition behalf_guard (p : behalf_path) : guard :=
+  match p with ViaOrigCallerArg => GParty PWhitelistedSC | ViaOnBehalfEndpoint => GHub end.
+Definition act_on_behalf (p : behalf_path) (f : facts) : result unit :=
+  check guard_ok false (behalf_guard p) f else EPerm; Ok tt.
+
+(** ------------------------------------------------------------------ contract states *)
+(** [Inactive]: as deployed, never activated (pair: no liquidity yet; energy factory: paused by init).
+    [Paused]: paused after having been live (same stored value as Inactive, but with positions). *)
+Inductive cstate := Inactive | PartialActive | Active | Paused.
+Definition cstate_id (s : cstate) : Z :=
+  match s with Inactive => 0 | PartialActive => 2 | Active => 1 | Paused => 3 end.
+Definition cstate_eqb (a b : cstate) : bool := cstate_id a =? cstate_id b.
+
+(** the stored pausable::State discriminant of a contract state *)
+Definition stored_state (s : cstate) : Z :=
+  match s with Inactive => ST_Inactive | Paused => ST_Inactive | Active => ST_Active
+             | PartialActive => ST_PartialActive end.
+
+Inductive sreq :=
+| SAny
+| SActive        (* farms / staking: validate_contract_state; pair: can_swap; pause module: not_paused *)
+| SLiquidity     (* pair: is_state_active = Active or PartialActive *)
+| SBootstrap     (* pair addInitialLiquidity: !is_state_active and lp supply = 0 *)
+| SPausedOnly.   (* pause module: require_paused *)
+
+Definition is_state_active (st : Z) : bool := (st =? ST_Active) || (st =? ST_PartialActive).
+Definition can_swap (st : Z) : bool := st =? ST_Active.
+
+(** [fresh]: no liquidity has been added yet (only in [Inactive]) *)
+Definition fresh (s : cstate) : bool := cstate_eqb s Inactive.
+
+Definition state_ok (r : sreq) (s : cstate) : bool :=
+  match r with
+  | SAny => true
+  | SActive => can_swap (stored_state s)
+  | SLiquidity => is_state_active (stored_state s)
+  | SBootstrap => negb (is_state_active (stored_state s)) && fresh s
+  | SPausedOnly => stored_state s =? ST_Inactive
+  end.
+
+(** ------------------------------------------------------------------ classes *)
+Inductive kind :=
+| KLifecycle | KView | KConfig | KUserFunds | KUserNoFunds | KContractEntry | KOnBehalf.
+Definition kind_id (k : kind) : Z :=
+  match k with KLifecycle => 0 | KView => 1 | KConfig => 2 | KUserFunds => 3 | KUserNoFunds => 4
+             | KContractEntry => 5 | KOnBehalf => 6 end.
+Definition kind_eqb (a b : kind) : bool := kind_id a =? kind_id b.
+
+Record class := mkClass { c_guard : guard; c_sreq : sreq; c_kind : kind }.
+
+Definition Lifecycle := mkClass GLifecycle SAny KLifecycle.
+Definition View := mkClass GAnyone SAny KView.
+Definition ViewQueryOnly := mkClass GQuery SAny KView.
+Definition OnlyOwnerAttr := mkClass GOnlyOwner SAny KConfig.
+Definition OnlyOwnerActive := mkClass GOnlyOwner SActive KConfig.       (* router: also `require!(is_active)` *)
+Definition OnlyOwnerPaused := mkClass GOnlyOwner SPausedOnly KConfig.   (* energy factory: require_paused *)
+Definition OwnerPerm := mkClass (GPerm PERM_OWNER) SAny KConfig.
+Definition OwnerOrAdmin := mkClass (GPerm (Z.lor PERM_OWNER PERM_ADMIN)) SAny KConfig.
+Definition AdminPerm := mkClass (GPerm PERM_ADMIN) SAny KConfig.
+Definition Pauser := mkClass (GPerm PERM_PAUSE) SAny KConfig.
+Definition OwnerOrOpen (s : sreq) := mkClass GOwnerOrOpen s KConfig.
+Definition WhitelistedSC (s : sreq) := mkClass (GParty PWhitelistedSC) s KContractEntry.
+Definition UnstakeSC (s : sreq) := mkClass (GParty PUnstakeSC) s KContractEntry.
+Definition OldFactory (s : sreq) := mkClass (GParty POldFactory) s KContractEntry.
+Definition TransferSC (s : sreq) := mkClass (GParty PTransferSC) s KContractEntry.
+Definition EnergyFactoryOnly (s : sreq) := mkClass (GParty PEnergyFactory) s KContractEntry.
+Definition KnownContract (s : sreq) := mkClass (GParty PKnownContract) s KContractEntry.
+Definition UserFunds (s : sreq) := mkClass GAnyone s KUserFunds.
+Definition UserNoFunds (s : sreq) := mkClass GAnyone s KUserNoFunds.
+Definition Bootstrap := mkClass (GParty PAdder) SBootstrap KUserFunds.
+Definition AdderOnly (s : sreq) := mkClass (GParty PAdder) s KUserFunds.
+Definition ProposerOnly := mkClass (GParty PProposer) SAny KUserFunds.
+Definition OnBehalf (s : sreq) := mkClass (behalf_guard ViaOnBehalfEndpoint) s KOnBehalf.
+Definition OrigCaller (s : sreq) := mkClass (behalf_guard ViaOrigCallerArg) s KOnBehalf.
+Definition ExternalClaim (s : sreq) := mkClass GNobody s KOnBehalf.
+
+(** argument variants of one endpoint that select a different guard *)
+Inductive variant :=
+| VPlain
+| VOrigCaller    (* the optional original-caller argument is given (another user's address) *)
+| VForOther.     (* claimBoostedRewards for another user's address *)
+Definition variant_id (v : variant) : Z := match v with VPlain => 0 | VOrigCaller => 1 | VForOther => 2 end.
+Definition variant_eqb (a b : variant) : bool := variant_id a =? variant_id b.
+
+Definition row := (contract * string * variant * class)%type.
+Definition row_contract (r : row) : contract := fst (fst (fst r)).
+Definition row_endpoint (r : row) : string := snd (fst (fst r)).
+Definition row_variant (r : row) : variant := snd (fst r).
+Definition row_class (r : row) : class := snd r.
+
+(** ------------------------------------------------------------------ the table *)
+Open Scope string_scope.
+Definition access_table : list row := [
+  (* ---- pair *)
+  (CPair, "init", VPlain, Lifecycle);
+  (CPair, "upgrade", VPlain, Lifecycle);
+  (CPair, "setLpTokenIdentifier", VPlain, OwnerPerm);
+  (CPair, "getFeeState", VPlain, View);
+  (CPair, "whitelist", VPlain, OwnerPerm);
+  (CPair, "removeWhitelist", VPlain, OwnerPerm);
+  (CPair, "addTrustedSwapPair", VPlain, OwnerPerm);
+  (CPair, "removeTrustedSwapPair", VPlain, OwnerPerm);
+  (CPair, "setupFeesCollector", VPlain, OwnerPerm);
+  (CPair, "setFeeOn", VPlain, OwnerPerm);
+  (CPair, "getFeeDestinations", VPlain, View);
+  (CPair, "getTrustedSwapPairs", VPlain, View);
+  (CPair, "getWhitelistedManagedAddresses", VPlain, View);
+  (CPair, "getFeesCollectorAddress", VPlain, View);
+  (CPair, "getFeesCollectorCutPercentage", VPlain, View);
+  (CPair, "setStateActiveNoSwaps", VPlain, OwnerPerm);
+  (CPair, "setFeePercents", VPlain, OwnerOrAdmin);
+  (CPair, "getLpTokenIdentifier", VPlain, View);
+  (CPair, "getTotalFeePercent", VPlain, View);
+  (CPair, "getSpecialFee", VPlain, View);
+  (CPair, "getRouterManagedAddress", VPlain, View);
+  (CPair, "getFirstTokenId", VPlain, View);
+  (CPair, "getSecondTokenId", VPlain, View);
+  (CPair, "getTotalSupply", VPlain, View);
+  (CPair, "getInitialLiquidtyAdder", VPlain, View);
+  (CPair, "getReserve", VPlain, View);
+  (CPair, "getSafePriceCurrentIndex", VPlain, View);
+  (CPair, "getLpTokensSafePriceByDefaultOffset", VPlain, View);
+  (CPair, "getLpTokensSafePriceByRoundOffset", VPlain, View);
+  (CPair, "getLpTokensSafePriceByTimestampOffset", VPlain, View);
+  (CPair, "getLpTokensSafePrice", VPlain, View);
+  (CPair, "getSafePriceByDefaultOffset", VPlain, View);
+  (CPair, "getSafePriceByRoundOffset", VPlain, View);
+  (CPair, "getSafePriceByTimestampOffset", VPlain, View);
+  (CPair, "getSafePrice", VPlain, View);
+  (CPair, "getPriceObservation", VPlain, View);
+  (CPair, "updateAndGetTokensForGivenPositionWithSafePrice", VPlain, UserNoFunds SAny);
+  (CPair, "updateAndGetSafePrice", VPlain, UserNoFunds SAny);
+  (CPair, "setLockingDeadlineEpoch", VPlain, OwnerPerm);
+  (CPair, "setLockingScAddress", VPlain, OwnerPerm);
+  (CPair, "setUnlockEpoch", VPlain, OwnerPerm);
+  (CPair, "getLockingScAddress", VPlain, View);
+  (CPair, "getUnlockEpoch", VPlain, View);
+  (CPair, "getLockingDeadlineEpoch", VPlain, View);
+  (CPair, "addAdmin", VPlain, OwnerPerm);
+  (CPair, "removeAdmin", VPlain, OwnerPerm);
+  (CPair, "updateOwnerOrAdmin", VPlain, OnlyOwnerAttr);
+  (CPair, "getPermissions", VPlain, View);
+  (CPair, "addToPauseWhitelist", VPlain, OwnerPerm);
+  (CPair, "removeFromPauseWhitelist", VPlain, OwnerPerm);
+  (CPair, "pause", VPlain, Pauser);
+  (CPair, "resume", VPlain, Pauser);
+  (CPair, "getState", VPlain, View);
+  (CPair, "addInitialLiquidity", VPlain, Bootstrap);
+  (CPair, "addLiquidity", VPlain, UserFunds SLiquidity);
+  (CPair, "removeLiquidity", VPlain, UserFunds SLiquidity);
+  (CPair, "removeLiquidityAndBuyBackAndBurnToken", VPlain, WhitelistedSC SAny);
+  (CPair, "swapNoFeeAndForward", VPlain, WhitelistedSC SActive);
+  (CPair, "swapTokensFixedInput", VPlain, UserFunds SActive);
+  (CPair, "swapTokensFixedOutput", VPlain, UserFunds SActive);
+  (CPair, "getTokensForGivenPosition", VPlain, View);
+  (CPair, "getReservesAndTotalSupply", VPlain, View);
+  (CPair, "getAmountOut", VPlain, View);
+  (CPair, "getAmountIn", VPlain, View);
+  (CPair, "getEquivalent", VPlain, View);
+  (* ---- router *)
+  (CRouter, "init", VPlain, Lifecycle);
+  (CRouter, "upgrade", VPlain, Lifecycle);
+  (CRouter, "pause", VPlain, OnlyOwnerAttr);
+  (CRouter, "resume", VPlain, OnlyOwnerAttr);
+  (CRouter, "createPair", VPlain, OwnerOrOpen SActive);
+  (CRouter, "upgradePair", VPlain, OnlyOwnerActive);
+  (CRouter, "issueLpToken", VPlain, OwnerOrOpen SActive);
+  (CRouter, "setLocalRoles", VPlain, UserNoFunds SActive);
+  (CRouter, "removePair", VPlain, OnlyOwnerActive);
+  (CRouter, "setFeeOn", VPlain, OnlyOwnerActive);
+  (CRouter, "setFeeOff", VPlain, OnlyOwnerActive);
+  (CRouter, "setPairCreationEnabled", VPlain, OnlyOwnerAttr);
+  (CRouter, "getPairCreationEnabled", VPlain, View);
+  (CRouter, "getState", VPlain, View);
+  (CRouter, "getOwner", VPlain, View);
+  (CRouter, "setTemporaryOwnerPeriod", VPlain, OnlyOwnerAttr);
+  (CRouter, "setPairTemplateAddress", VPlain, OnlyOwnerAttr);
+  (CRouter, "getPairTemplateAddress", VPlain, View);
+  (CRouter, "getTemporaryOwnerPeriod", VPlain, View);
+  (CRouter, "getCommonTokensForUserPairs", VPlain, View);
+  (CRouter, "getAllPairsManagedAddresses", VPlain, View);
+  (CRouter, "getAllPairTokens", VPlain, View);
+  (CRouter, "getAllPairContractMetadata", VPlain, View);
+  (CRouter, "getPair", VPlain, View);
+  (CRouter, "clearPairTemporaryOwnerStorage", VPlain, OnlyOwnerAttr);
+  (CRouter, "multiPairSwap", VPlain, UserFunds SActive);
+  (CRouter, "configEnableByUserParameters", VPlain, OnlyOwnerAttr);
+  (CRouter, "addCommonTokensForUserPairs", VPlain, OnlyOwnerAttr);
+  (CRouter, "removeCommonTokensForUserPairs", VPlain, OnlyOwnerAttr);
+  (CRouter, "setSwapEnabledByUser", VPlain, AdderOnly SActive);
+  (CRouter, "getEnableSwapByUserConfig", VPlain, View);
+  (* ---- farm *)
+  (CFarm, "init", VPlain, Lifecycle);
+  (CFarm, "upgrade", VPlain, Lifecycle);
+  (CFarm, "enterFarm", VPlain, UserFunds SActive);
+  (CFarm, "enterFarm", VOrigCaller, OrigCaller SActive);
+  (CFarm, "claimRewards", VPlain, UserFunds SActive);
+  (CFarm, "claimRewards", VOrigCaller, OrigCaller SActive);
+  (CFarm, "compoundRewards", VPlain, UserFunds SActive);
+  (CFarm, "compoundRewards", VOrigCaller, OrigCaller SActive);
+  (CFarm, "exitFarm", VPlain, UserFunds SActive);
+  (CFarm, "exitFarm", VOrigCaller, OrigCaller SActive);
+  (CFarm, "mergeFarmTokens", VPlain, UserFunds SActive);
+  (CFarm, "mergeFarmTokens", VOrigCaller, OrigCaller SActive);
+  (CFarm, "claimBoostedRewards", VPlain, UserFunds SActive);
+  (CFarm, "claimBoostedRewards", VForOther, ExternalClaim SActive);
+  (CFarm, "startProduceRewards", VPlain, AdminPerm);
+  (CFarm, "endProduceRewards", VPlain, AdminPerm);
+  (CFarm, "setPerBlockRewardAmount", VPlain, AdminPerm);
+  (CFarm, "setBoostedYieldsRewardsPercentage", VPlain, AdminPerm);
+  (CFarm, "calculateRewardsForGivenPosition", VPlain, ViewQueryOnly);
+  (CFarm, "getRewardPerShare", VPlain, View);
+  (CFarm, "getRewardReserve", VPlain, View);
+  (CFarm, "getFarmingTokenId", VPlain, View);
+  (CFarm, "getRewardTokenId", VPlain, View);
+  (CFarm, "getPerBlockRewardAmount", VPlain, View);
+  (CFarm, "getLastRewardBlockNonce", VPlain, View);
+  (CFarm, "getDivisionSafetyConstant", VPlain, View);
+  (CFarm, "getUserTotalFarmPosition", VPlain, View);
+  (CFarm, "getAllowExternalClaim", VPlain, View);
+  (CFarm, "getFarmPositionMigrationNonce", VPlain, View);
+  (CFarm, "registerFarmToken", VPlain, OwnerOrAdmin);
+  (CFarm, "getFarmTokenId", VPlain, View);
+  (CFarm, "getFarmTokenSupply", VPlain, View);
+  (CFarm, "addToPauseWhitelist", VPlain, OwnerPerm);
+  (CFarm, "removeFromPauseWhitelist", VPlain, OwnerPerm);
+  (CFarm, "pause", VPlain, Pauser);
+  (CFarm, "resume", VPlain, Pauser);
+  (CFarm, "getState", VPlain, View);
+  (CFarm, "addAdmin", VPlain, OwnerPerm);
+  (CFarm, "removeAdmin", VPlain, OwnerPerm);
+  (CFarm, "updateOwnerOrAdmin", VPlain, OnlyOwnerAttr);
+  (CFarm, "getPermissions", VPlain, View);
+  (CFarm, "setPermissionsHubAddress", VPlain, OnlyOwnerAttr);
+  (CFarm, "addSCAddressToWhitelist", VPlain, OnlyOwnerAttr);
+  (CFarm, "removeSCAddressFromWhitelist", VPlain, OnlyOwnerAttr);
+  (CFarm, "isSCAddressWhitelisted", VPlain, View);
+  (CFarm, "set_penalty_percent", VPlain, OnlyOwnerAttr);
+  (CFarm, "set_minimum_farming_epochs", VPlain, AdminPerm);
+  (CFarm, "set_burn_gas_limit", VPlain, OnlyOwnerAttr);
+  (CFarm, "getPenaltyPercent", VPlain, View);
+  (CFarm, "getMinimumFarmingEpoch", VPlain, View);
+  (CFarm, "getBurnGasLimit", VPlain, View);
+  (CFarm, "getPairContractManagedAddress", VPlain, View);
+  (CFarm, "enterFarmOnBehalf", VPlain, OnBehalf SActive);
+  (CFarm, "claimRewardsOnBehalf", VPlain, OnBehalf SActive);
+  (CFarm, "collectUndistributedBoostedRewards", VPlain, AdminPerm);
+  (CFarm, "getBoostedYieldsRewardsPercentage", VPlain, View);
+  (CFarm, "getAccumulatedRewardsForWeek", VPlain, View);
+  (CFarm, "getFarmSupplyForWeek", VPlain, View);
+  (CFarm, "getRemainingBoostedRewardsToDistribute", VPlain, View);
+  (CFarm, "getUndistributedBoostedRewards", VPlain, View);
+  (CFarm, "setBoostedYieldsFactors", VPlain, AdminPerm);
+  (CFarm, "getBoostedYieldsFactors", VPlain, View);
+  (CFarm, "getCurrentWeek", VPlain, View);
+  (CFarm, "getFirstWeekStartEpoch", VPlain, View);
+  (CFarm, "getLastActiveWeekForUser", VPlain, View);
+  (CFarm, "getUserEnergyForWeek", VPlain, View);
+  (CFarm, "getLastGlobalUpdateWeek", VPlain, View);
+  (CFarm, "getTotalRewardsForWeek", VPlain, View);
+  (CFarm, "getTotalEnergyForWeek", VPlain, View);
+  (CFarm, "getTotalLockedTokensForWeek", VPlain, View);
+  (CFarm, "updateEnergyForUser", VPlain, UserNoFunds SAny);
+  (CFarm, "getCurrentClaimProgress", VPlain, View);
+  (CFarm, "setEnergyFactoryAddress", VPlain, OnlyOwnerAttr);
+  (CFarm, "getEnergyFactoryAddress", VPlain, View);
+  (* ---- farm-with-locked-rewards *)
+  (CFarmLocked, "init", VPlain, Lifecycle);
+  (CFarmLocked, "upgrade", VPlain, Lifecycle);
+  (CFarmLocked, "enterFarm", VPlain, UserFunds SActive);
+  (CFarmLocked, "enterFarm", VOrigCaller, OrigCaller SActive);
+  (CFarmLocked, "claimRewards", VPlain, UserFunds SActive);
+  (CFarmLocked, "claimRewards", VOrigCaller, OrigCaller SActive);
+  (CFarmLocked, "exitFarm", VPlain, UserFunds SActive);
+  (CFarmLocked, "exitFarm", VOrigCaller, OrigCaller SActive);
+  (CFarmLocked, "mergeFarmTokens", VPlain, UserFunds SActive);
+  (CFarmLocked, "mergeFarmTokens", VOrigCaller, OrigCaller SActive);
+  (CFarmLocked, "claimBoostedRewards", VPlain, UserFunds SActive);
+  (CFarmLocked, "claimBoostedRewards", VForOther, ExternalClaim SActive);
+  (CFarmLocked, "startProduceRewards", VPlain, AdminPerm);
+  (CFarmLocked, "endProduceRewards", VPlain, AdminPerm);
+  (CFarmLocked, "setPerBlockRewardAmount", VPlain, AdminPerm);
+  (CFarmLocked, "setBoostedYieldsRewardsPercentage", VPlain, AdminPerm);
+  (CFarmLocked, "calculateRewardsForGivenPosition", VPlain, ViewQueryOnly);
+  (CFarmLocked, "getRewardPerShare", VPlain, View);
+  (CFarmLocked, "getRewardReserve", VPlain, View);
+  (CFarmLocked, "getFarmingTokenId", VPlain, View);
+  (CFarmLocked, "getRewardTokenId", VPlain, View);
+  (CFarmLocked, "getPerBlockRewardAmount", VPlain, View);
+  (CFarmLocked, "getLastRewardBlockNonce", VPlain, View);
+  (CFarmLocked, "getDivisionSafetyConstant", VPlain, View);
+  (CFarmLocked, "getUserTotalFarmPosition", VPlain, View);
+  (CFarmLocked, "getAllowExternalClaim", VPlain, View);
+  (CFarmLocked, "getFarmPositionMigrationNonce", VPlain, View);
+  (CFarmLocked, "setLockingScAddress", VPlain, OnlyOwnerAttr);
+  (CFarmLocked, "setLockEpochs", VPlain, OnlyOwnerAttr);
+  (CFarmLocked, "getLockingScAddress", VPlain, View);
+  (CFarmLocked, "getLockEpochs", VPlain, View);
+  (CFarmLocked, "registerFarmToken", VPlain, OwnerOrAdmin);
+  (CFarmLocked, "getFarmTokenId", VPlain, View);
+  (CFarmLocked, "getFarmTokenSupply", VPlain, View);
+  (CFarmLocked, "addToPauseWhitelist", VPlain, OwnerPerm);
+  (CFarmLocked, "removeFromPauseWhitelist", VPlain, OwnerPerm);
+  (CFarmLocked, "pause", VPlain, Pauser);
+  (CFarmLocked, "resume", VPlain, Pauser);
+  (CFarmLocked, "getState", VPlain, View);
+  (CFarmLocked, "addAdmin", VPlain, OwnerPerm);
+  (CFarmLocked, "removeAdmin", VPlain, OwnerPerm);
+  (CFarmLocked, "updateOwnerOrAdmin", VPlain, OnlyOwnerAttr);
+  (CFarmLocked, "getPermissions", VPlain, View);
+  (CFarmLocked, "setPermissionsHubAddress", VPlain, OnlyOwnerAttr);
+  (CFarmLocked, "addSCAddressToWhitelist", VPlain, OnlyOwnerAttr);
+  (CFarmLocked, "removeSCAddressFromWhitelist", VPlain, OnlyOwnerAttr);
+  (CFarmLocked, "isSCAddressWhitelisted", VPlain, View);
+  (CFarmLocked, "set_penalty_percent", VPlain, OnlyOwnerAttr);
+  (CFarmLocked, "set_minimum_farming_epochs", VPlain, AdminPerm);
+  (CFarmLocked, "set_burn_gas_limit", VPlain, OnlyOwnerAttr);
+  (CFarmLocked, "getPenaltyPercent", VPlain, View);
+  (CFarmLocked, "getMinimumFarmingEpoch", VPlain, View);
+  (CFarmLocked, "getBurnGasLimit", VPlain, View);
+  (CFarmLocked, "getPairContractManagedAddress", VPlain, View);
+  (CFarmLocked, "enterFarmOnBehalf", VPlain, OnBehalf SActive);
+  (CFarmLocked, "claimRewardsOnBehalf", VPlain, OnBehalf SActive);
+  (CFarmLocked, "collectUndistributedBoostedRewards", VPlain, AdminPerm);
+  (CFarmLocked, "getBoostedYieldsRewardsPercentage", VPlain, View);
+  (CFarmLocked, "getAccumulatedRewardsForWeek", VPlain, View);
+  (CFarmLocked, "getFarmSupplyForWeek", VPlain, View);
+  (CFarmLocked, "getRemainingBoostedRewardsToDistribute", VPlain, View);
+  (CFarmLocked, "getUndistributedBoostedRewards", VPlain, View);
+  (CFarmLocked, "setBoostedYieldsFactors", VPlain, AdminPerm);
+  (CFarmLocked, "getBoostedYieldsFactors", VPlain, View);
+  (CFarmLocked, "getCurrentWeek", VPlain, View);
+  (CFarmLocked, "getFirstWeekStartEpoch", VPlain, View);
+  (CFarmLocked, "getLastActiveWeekForUser", VPlain, View);
+  (CFarmLocked, "getUserEnergyForWeek", VPlain, View);
+  (CFarmLocked, "getLastGlobalUpdateWeek", VPlain, View);
+  (CFarmLocked, "getTotalRewardsForWeek", VPlain, View);
+  (CFarmLocked, "getTotalEnergyForWeek", VPlain, View);
+  (CFarmLocked, "getTotalLockedTokensForWeek", VPlain, View);
+  (CFarmLocked, "updateEnergyForUser", VPlain, UserNoFunds SAny);
+  (CFarmLocked, "getCurrentClaimProgress", VPlain, View);
+  (CFarmLocked, "setEnergyFactoryAddress", VPlain, OnlyOwnerAttr);
+  (CFarmLocked, "getEnergyFactoryAddress", VPlain, View);
+  (* ---- farm-staking *)
+  (CStaking, "init", VPlain, Lifecycle);
+  (CStaking, "upgrade", VPlain, Lifecycle);
+  (CStaking, "mergeFarmTokens", VPlain, UserFunds SActive);
+  (CStaking, "setBoostedYieldsRewardsPercentage", VPlain, AdminPerm);
+  (CStaking, "calculateRewardsForGivenPosition", VPlain, ViewQueryOnly);
+  (CStaking, "topUpRewards", VPlain, AdminPerm);
+  (CStaking, "withdrawRewards", VPlain, AdminPerm);
+  (CStaking, "endProduceRewards", VPlain, AdminPerm);
+  (CStaking, "setPerBlockRewardAmount", VPlain, AdminPerm);
+  (CStaking, "setMaxApr", VPlain, AdminPerm);
+  (CStaking, "setMinUnbondEpochs", VPlain, AdminPerm);
+  (CStaking, "startProduceRewards", VPlain, AdminPerm);
+  (CStaking, "getAccumulatedRewards", VPlain, View);
+  (CStaking, "getRewardCapacity", VPlain, View);
+  (CStaking, "getAnnualPercentageRewards", VPlain, View);
+  (CStaking, "getMinUnbondEpochs", VPlain, View);
+  (CStaking, "getRewardPerShare", VPlain, View);
+  (CStaking, "getRewardReserve", VPlain, View);
+  (CStaking, "getFarmingTokenId", VPlain, View);
+  (CStaking, "getRewardTokenId", VPlain, View);
+  (CStaking, "getPerBlockRewardAmount", VPlain, View);
+  (CStaking, "getLastRewardBlockNonce", VPlain, View);
+  (CStaking, "getDivisionSafetyConstant", VPlain, View);
+  (CStaking, "getUserTotalFarmPosition", VPlain, View);
+  (CStaking, "getAllowExternalClaim", VPlain, View);
+  (CStaking, "getFarmPositionMigrationNonce", VPlain, View);
+  (CStaking, "registerFarmToken", VPlain, OwnerOrAdmin);
+  (CStaking, "getFarmTokenId", VPlain, View);
+  (CStaking, "getFarmTokenSupply", VPlain, View);
+  (CStaking, "addSCAddressToWhitelist", VPlain, OnlyOwnerAttr);
+  (CStaking, "removeSCAddressFromWhitelist", VPlain, OnlyOwnerAttr);
+  (CStaking, "isSCAddressWhitelisted", VPlain, View);
+  (CStaking, "addToPauseWhitelist", VPlain, OwnerPerm);
+  (CStaking, "removeFromPauseWhitelist", VPlain, OwnerPerm);
+  (CStaking, "pause", VPlain, Pauser);
+  (CStaking, "resume", VPlain, Pauser);
+  (CStaking, "getState", VPlain, View);
+  (CStaking, "addAdmin", VPlain, OwnerPerm);
+  (CStaking, "removeAdmin", VPlain, OwnerPerm);
+  (CStaking, "updateOwnerOrAdmin", VPlain, OnlyOwnerAttr);
+  (CStaking, "getPermissions", VPlain, View);
+  (CStaking, "setPermissionsHubAddress", VPlain, OnlyOwnerAttr);
+  (CStaking, "setBurnRoleForAddress", VPlain, OnlyOwnerAttr);
+  (CStaking, "stakeFarmThroughProxy", VPlain, WhitelistedSC SActive);
+  (CStaking, "stakeFarm", VPlain, UserFunds SActive);
+  (CStaking, "stakeFarm", VOrigCaller, OrigCaller SActive);
+  (CStaking, "claimRewards", VPlain, UserFunds SActive);
+  (CStaking, "claimRewards", VOrigCaller, OrigCaller SActive);
+  (CStaking, "claimRewardsWithNewValue", VPlain, WhitelistedSC SActive);
+  (CStaking, "compoundRewards", VPlain, UserFunds SActive);
+  (CStaking, "unstakeFarm", VPlain, UserFunds SActive);
+  (CStaking, "unstakeFarm", VOrigCaller, OrigCaller SActive);
+  (CStaking, "unstakeFarmThroughProxy", VPlain, WhitelistedSC SActive);
+  (CStaking, "unbondFarm", VPlain, UserFunds SActive);
+  (CStaking, "stakeFarmOnBehalf", VPlain, OnBehalf SActive);
+  (CStaking, "claimRewardsOnBehalf", VPlain, OnBehalf SActive);
+  (CStaking, "claimBoostedRewards", VPlain, UserFunds SActive);
+  (CStaking, "claimBoostedRewards", VForOther, ExternalClaim SActive);
+  (CStaking, "collectUndistributedBoostedRewards", VPlain, AdminPerm);
+  (CStaking, "getBoostedYieldsRewardsPercentage", VPlain, View);
+  (CStaking, "getAccumulatedRewardsForWeek", VPlain, View);
+  (CStaking, "getFarmSupplyForWeek", VPlain, View);
+  (CStaking, "getRemainingBoostedRewardsToDistribute", VPlain, View);
+  (CStaking, "getUndistributedBoostedRewards", VPlain, View);
+  (CStaking, "setBoostedYieldsFactors", VPlain, AdminPerm);
+  (CStaking, "getBoostedYieldsFactors", VPlain, View);
+  (CStaking, "getCurrentWeek", VPlain, View);
+  (CStaking, "getFirstWeekStartEpoch", VPlain, View);
+  (CStaking, "getLastActiveWeekForUser", VPlain, View);
+  (CStaking, "getUserEnergyForWeek", VPlain, View);
+  (CStaking, "getLastGlobalUpdateWeek", VPlain, View);
+  (CStaking, "getTotalRewardsForWeek", VPlain, View);
+  (CStaking, "getTotalEnergyForWeek", VPlain, View);
+  (CStaking, "getTotalLockedTokensForWeek", VPlain, View);
+  (CStaking, "updateEnergyForUser", VPlain, UserNoFunds SAny);
+  (CStaking, "getCurrentClaimProgress", VPlain, View);
+  (CStaking, "setEnergyFactoryAddress", VPlain, OnlyOwnerAttr);
+  (CStaking, "getEnergyFactoryAddress", VPlain, View);
+  (* ---- farm-staking-proxy *)
+  (CStakingProxy, "init", VPlain, Lifecycle);
+  (CStakingProxy, "upgrade", VPlain, Lifecycle);
+  (CStakingProxy, "registerDualYieldToken", VPlain, OnlyOwnerAttr);
+  (CStakingProxy, "getDualYieldTokenId", VPlain, View);
+  (CStakingProxy, "getLpFarmAddress", VPlain, View);
+  (CStakingProxy, "getStakingFarmAddress", VPlain, View);
+  (CStakingProxy, "getPairAddress", VPlain, View);
+  (CStakingProxy, "getStakingTokenId", VPlain, View);
+  (CStakingProxy, "getFarmTokenId", VPlain, View);
+  (CStakingProxy, "getLpTokenId", VPlain, View);
+  (CStakingProxy, "getLpFarmTokenId", VPlain, View);
+  (CStakingProxy, "setPermissionsHubAddress", VPlain, OnlyOwnerAttr);
+  (CStakingProxy, "setEnergyFactoryAddress", VPlain, OnlyOwnerAttr);
+  (CStakingProxy, "getEnergyFactoryAddress", VPlain, View);
+  (CStakingProxy, "addSCAddressToWhitelist", VPlain, OnlyOwnerAttr);
+  (CStakingProxy, "removeSCAddressFromWhitelist", VPlain, OnlyOwnerAttr);
+  (CStakingProxy, "isSCAddressWhitelisted", VPlain, View);
+  (CStakingProxy, "stakeFarmTokens", VPlain, UserFunds SAny);
+  (CStakingProxy, "stakeFarmTokens", VOrigCaller, OrigCaller SAny);
+  (CStakingProxy, "claimDualYield", VPlain, UserFunds SAny);
+  (CStakingProxy, "claimDualYield", VOrigCaller, OrigCaller SAny);
+  (CStakingProxy, "unstakeFarmTokens", VPlain, UserFunds SAny);
+  (CStakingProxy, "unstakeFarmTokens", VOrigCaller, OrigCaller SAny);
+  (CStakingProxy, "stakeFarmOnBehalf", VPlain, OnBehalf SAny);
+  (CStakingProxy, "claimDualYieldOnBehalf", VPlain, OnBehalf SAny);
+  (* ---- energy-factory *)
+  (CEnergy, "init", VPlain, Lifecycle);
+  (CEnergy, "upgrade", VPlain, Lifecycle);
+  (CEnergy, "lockTokens", VPlain, UserFunds SActive);
+  (CEnergy, "unlockTokens", VPlain, UserFunds SActive);
+  (CEnergy, "extendLockPeriod", VPlain, TransferSC SActive);
+  (CEnergy, "adjustUserEnergy", VPlain, OnlyOwnerAttr);
+  (CEnergy, "issueLockedToken", VPlain, OnlyOwnerAttr);
+  (CEnergy, "getLockedTokenId", VPlain, View);
+  (CEnergy, "getBaseAssetTokenId", VPlain, View);
+  (CEnergy, "getLegacyLockedTokenId", VPlain, View);
+  (CEnergy, "getEnergyEntryForUser", VPlain, View);
+  (CEnergy, "getEnergyAmountForUser", VPlain, View);
+  (CEnergy, "addLockOptions", VPlain, OnlyOwnerAttr);
+  (CEnergy, "getLockOptions", VPlain, View);
+  (CEnergy, "unlockEarly", VPlain, UserFunds SActive);
+  (CEnergy, "reduceLockPeriod", VPlain, UserFunds SActive);
+  (CEnergy, "getPenaltyAmount", VPlain, View);
+  (CEnergy, "setTokenUnstakeAddress", VPlain, OnlyOwnerAttr);
+  (CEnergy, "revertUnstake", VPlain, UnstakeSC SActive);
+  (CEnergy, "getTokenUnstakeScAddress", VPlain, View);
+  (CEnergy, "setEnergyForOldTokens", VPlain, OnlyOwnerPaused);
+  (CEnergy, "updateEnergyAfterOldTokenUnlock", VPlain, OldFactory SActive);
+  (CEnergy, "migrateOldTokens", VPlain, UserFunds SActive);
+  (CEnergy, "pause", VPlain, OnlyOwnerAttr);
+  (CEnergy, "unpause", VPlain, OnlyOwnerAttr);
+  (CEnergy, "isPaused", VPlain, View);
+  (CEnergy, "setTransferRoleLockedToken", VPlain, OnlyOwnerAttr);
+  (CEnergy, "setBurnRoleLockedToken", VPlain, OnlyOwnerAttr);
+  (CEnergy, "mergeTokens", VPlain, UserFunds SActive);
+  (CEnergy, "mergeTokens", VOrigCaller, OrigCaller SActive);
+  (CEnergy, "lockVirtual", VPlain, WhitelistedSC SActive);
+  (CEnergy, "addSCAddressToWhitelist", VPlain, OnlyOwnerAttr);
+  (CEnergy, "removeSCAddressFromWhitelist", VPlain, OnlyOwnerAttr);
+  (CEnergy, "isSCAddressWhitelisted", VPlain, View);
+  (CEnergy, "addToTokenTransferWhitelist", VPlain, OnlyOwnerAttr);
+  (CEnergy, "removeFromTokenTransferWhitelist", VPlain, OnlyOwnerAttr);
+  (CEnergy, "setUserEnergyAfterLockedTokenTransfer", VPlain, TransferSC SActive);
+  (* ---- token-unstake *)
+  (CUnstake, "init", VPlain, Lifecycle);
+  (CUnstake, "upgrade", VPlain, Lifecycle);
+  (CUnstake, "getUnbondEpochs", VPlain, View);
+  (CUnstake, "getUnlockedTokensForUser", VPlain, View);
+  (CUnstake, "claimUnlockedTokens", VPlain, UserFunds SAny);
+  (CUnstake, "cancelUnbond", VPlain, UserFunds SAny);
+  (CUnstake, "depositUserTokens", VPlain, EnergyFactoryOnly SAny);
+  (CUnstake, "depositFees", VPlain, EnergyFactoryOnly SAny);
+  (CUnstake, "setFeesBurnPercentage", VPlain, OnlyOwnerAttr);
+  (CUnstake, "getFeesBurnPercentage", VPlain, View);
+  (CUnstake, "getFeesCollectorAddress", VPlain, View);
+  (CUnstake, "setEnergyFactoryAddress", VPlain, OnlyOwnerAttr);
+  (CUnstake, "getEnergyFactoryAddress", VPlain, View);
+  (* ---- lkmex-transfer *)
+  (CLkmex, "init", VPlain, Lifecycle);
+  (CLkmex, "upgrade", VPlain, Lifecycle);
+  (CLkmex, "withdraw", VPlain, UserFunds SAny);
+  (CLkmex, "cancelTransfer", VPlain, AdminPerm);
+  (CLkmex, "lockFunds", VPlain, UserFunds SAny);
+  (CLkmex, "getScheduledTransfers", VPlain, View);
+  (CLkmex, "getAllSenders", VPlain, View);
+  (CLkmex, "setEnergyFactoryAddress", VPlain, OnlyOwnerAttr);
+  (CLkmex, "getEnergyFactoryAddress", VPlain, View);
+  (CLkmex, "addAdmin", VPlain, OwnerPerm);
+  (CLkmex, "removeAdmin", VPlain, OwnerPerm);
+  (CLkmex, "updateOwnerOrAdmin", VPlain, OnlyOwnerAttr);
+  (CLkmex, "getPermissions", VPlain, View);
+  (* ---- locked-token-wrapper *)
+  (CWrapper, "init", VPlain, Lifecycle);
+  (CWrapper, "upgrade", VPlain, Lifecycle);
+  (CWrapper, "wrapLockedToken", VPlain, UserFunds SAny);
+  (CWrapper, "unwrapLockedToken", VPlain, UserFunds SAny);
+  (CWrapper, "issueWrappedToken", VPlain, OnlyOwnerAttr);
+  (CWrapper, "setTransferRoleWrappedToken", VPlain, OnlyOwnerAttr);
+  (CWrapper, "unsetTransferRoleWrappedToken", VPlain, OnlyOwnerAttr);
+  (CWrapper, "getWrappedTokenId", VPlain, View);
+  (CWrapper, "setEnergyFactoryAddress", VPlain, OnlyOwnerAttr);
+  (CWrapper, "getEnergyFactoryAddress", VPlain, View);
+  (* ---- proxy_dex *)
+  (CProxyDex, "init", VPlain, Lifecycle);
+  (CProxyDex, "upgrade", VPlain, Lifecycle);
+  (CProxyDex, "registerProxyPair", VPlain, OnlyOwnerAttr);
+  (CProxyDex, "setTransferRoleWrappedLpToken", VPlain, OnlyOwnerAttr);
+  (CProxyDex, "registerProxyFarm", VPlain, OnlyOwnerAttr);
+  (CProxyDex, "setTransferRoleWrappedFarmToken", VPlain, OnlyOwnerAttr);
+  (CProxyDex, "getAssetTokenId", VPlain, View);
+  (CProxyDex, "getLockedTokenIds", VPlain, View);
+  (CProxyDex, "getOldLockedTokenId", VPlain, View);
+  (CProxyDex, "getOldFactoryAddress", VPlain, View);
+  (CProxyDex, "getWrappedLpTokenId", VPlain, View);
+  (CProxyDex, "getWrappedFarmTokenId", VPlain, View);
+  (CProxyDex, "addPairToIntermediate", VPlain, OnlyOwnerAttr);
+  (CProxyDex, "removeIntermediatedPair", VPlain, OnlyOwnerAttr);
+  (CProxyDex, "addFarmToIntermediate", VPlain, OnlyOwnerAttr);
+  (CProxyDex, "removeIntermediatedFarm", VPlain, OnlyOwnerAttr);
+  (CProxyDex, "getIntermediatedPairs", VPlain, View);
+  (CProxyDex, "getIntermediatedFarms", VPlain, View);
+  (CProxyDex, "addLiquidityProxy", VPlain, UserFunds SAny);
+  (CProxyDex, "removeLiquidityProxy", VPlain, UserFunds SAny);
+  (CProxyDex, "increaseProxyPairTokenEnergy", VPlain, UserFunds SAny);
+  (CProxyDex, "enterFarmProxy", VPlain, UserFunds SAny);
+  (CProxyDex, "enterFarmProxy", VOrigCaller, OrigCaller SAny);
+  (CProxyDex, "exitFarmProxy", VPlain, UserFunds SAny);
+  (CProxyDex, "exitFarmProxy", VOrigCaller, OrigCaller SAny);
+  (CProxyDex, "claimRewardsProxy", VPlain, UserFunds SAny);
+  (CProxyDex, "claimRewardsProxy", VOrigCaller, OrigCaller SAny);
+  (CProxyDex, "increaseProxyFarmTokenEnergy", VPlain, UserFunds SAny);
+  (CProxyDex, "mergeWrappedFarmTokens", VPlain, UserFunds SAny);
+  (CProxyDex, "mergeWrappedLpTokens", VPlain, UserFunds SAny);
+  (CProxyDex, "setEnergyFactoryAddress", VPlain, OnlyOwnerAttr);
+  (CProxyDex, "getEnergyFactoryAddress", VPlain, View);
+  (CProxyDex, "addSCAddressToWhitelist", VPlain, OnlyOwnerAttr);
+  (CProxyDex, "removeSCAddressFromWhitelist", VPlain, OnlyOwnerAttr);
+  (CProxyDex, "isSCAddressWhitelisted", VPlain, View);
+  (* ---- simple-lock *)
+  (CSimpleLock, "init", VPlain, Lifecycle);
+  (CSimpleLock, "upgrade", VPlain, Lifecycle);
+  (CSimpleLock, "lockTokens", VPlain, UserFunds SAny);
+  (CSimpleLock, "unlockTokens", VPlain, UserFunds SAny);
+  (CSimpleLock, "issueLockedToken", VPlain, OnlyOwnerAttr);
+  (CSimpleLock, "getLockedTokenId", VPlain, View);
+  (CSimpleLock, "issueLpProxyToken", VPlain, OnlyOwnerAttr);
+  (CSimpleLock, "addLpToWhitelist", VPlain, OnlyOwnerAttr);
+  (CSimpleLock, "removeLpFromWhitelist", VPlain, OnlyOwnerAttr);
+  (CSimpleLock, "addLiquidityLockedToken", VPlain, UserFunds SAny);
+  (CSimpleLock, "removeLiquidityLockedToken", VPlain, UserFunds SAny);
+  (CSimpleLock, "getKnownLiquidityPools", VPlain, View);
+  (CSimpleLock, "getLpProxyTokenId", VPlain, View);
+  (CSimpleLock, "issueFarmProxyToken", VPlain, OnlyOwnerAttr);
+  (CSimpleLock, "addFarmToWhitelist", VPlain, OnlyOwnerAttr);
+  (CSimpleLock, "removeFarmFromWhitelist", VPlain, OnlyOwnerAttr);
+  (CSimpleLock, "enterFarmLockedToken", VPlain, UserFunds SAny);
+  (CSimpleLock, "exitFarmLockedToken", VPlain, UserFunds SAny);
+  (CSimpleLock, "farmClaimRewardsLockedToken", VPlain, UserFunds SAny);
+  (CSimpleLock, "getKnownFarms", VPlain, View);
+  (CSimpleLock, "getFarmProxyTokenId", VPlain, View);
+  (* ---- fees-collector *)
+  (CFees, "init", VPlain, Lifecycle);
+  (CFees, "upgrade", VPlain, Lifecycle);
+  (CFees, "claimRewards", VPlain, UserFunds SActive);
+  (CFees, "claimRewards", VOrigCaller, OrigCaller SActive);
+  (CFees, "claimBoostedRewards", VPlain, UserFunds SActive);
+  (CFees, "claimBoostedRewards", VForOther, ExternalClaim SActive);
+  (CFees, "addKnownContracts", VPlain, OnlyOwnerAttr);
+  (CFees, "removeKnownContracts", VPlain, OnlyOwnerAttr);
+  (CFees, "addKnownTokens", VPlain, OnlyOwnerAttr);
+  (CFees, "removeKnownTokens", VPlain, OnlyOwnerAttr);
+  (CFees, "getLockedTokenId", VPlain, View);
+  (CFees, "getAllTokens", VPlain, View);
+  (CFees, "getAllKnownContracts", VPlain, View);
+  (CFees, "getAllowExternalClaimRewards", VPlain, View);
+  (CFees, "getLastActiveWeekForUser", VPlain, View);
+  (CFees, "getUserEnergyForWeek", VPlain, View);
+  (CFees, "getLastGlobalUpdateWeek", VPlain, View);
+  (CFees, "getTotalRewardsForWeek", VPlain, View);
+  (CFees, "getTotalEnergyForWeek", VPlain, View);
+  (CFees, "getTotalLockedTokensForWeek", VPlain, View);
+  (CFees, "updateEnergyForUser", VPlain, UserNoFunds SAny);
+  (CFees, "getCurrentClaimProgress", VPlain, View);
+  (CFees, "depositSwapFees", VPlain, KnownContract SAny);
+  (CFees, "getAccumulatedFees", VPlain, View);
+  (CFees, "setLockedTokensPerBlock", VPlain, OnlyOwnerAttr);
+  (CFees, "getLastLockedTokensAddWeek", VPlain, View);
+  (CFees, "getLockedTokensPerBlock", VPlain, View);
+  (CFees, "setLockingScAddress", VPlain, OnlyOwnerAttr);
+  (CFees, "setLockEpochs", VPlain, OnlyOwnerAttr);
+  (CFees, "getLockingScAddress", VPlain, View);
+  (CFees, "getLockEpochs", VPlain, View);
+  (CFees, "setEnergyFactoryAddress", VPlain, OnlyOwnerAttr);
+  (CFees, "getEnergyFactoryAddress", VPlain, View);
+  (CFees, "getCurrentWeek", VPlain, View);
+  (CFees, "getFirstWeekStartEpoch", VPlain, View);
+  (CFees, "pause", VPlain, OnlyOwnerAttr);
+  (CFees, "unpause", VPlain, OnlyOwnerAttr);
+  (CFees, "isPaused", VPlain, View);
+  (CFees, "addSCAddressToWhitelist", VPlain, OnlyOwnerAttr);
+  (CFees, "removeSCAddressFromWhitelist", VPlain, OnlyOwnerAttr);
+  (CFees, "isSCAddressWhitelisted", VPlain, View);
+  (* ---- governance-v2 *)
+  (CGov, "init", VPlain, Lifecycle);
+  (CGov, "upgrade", VPlain, Lifecycle);
+  (CGov, "propose", VPlain, UserFunds SAny);
+  (CGov, "vote", VPlain, UserNoFunds SAny);
+  (CGov, "cancel", VPlain, ProposerOnly);
+  (CGov, "withdrawDeposit", VPlain, ProposerOnly);
+  (CGov, "changeMinEnergyForProposal", VPlain, OnlyOwnerAttr);
+  (CGov, "changeMinFeeForProposal", VPlain, OnlyOwnerAttr);
+  (CGov, "changeQuorumPercentage", VPlain, OnlyOwnerAttr);
+  (CGov, "changeWithdrawPercentage", VPlain, OnlyOwnerAttr);
+  (CGov, "changeVotingDelayInBlocks", VPlain, OnlyOwnerAttr);
+  (CGov, "changeVotingPeriodInBlocks", VPlain, OnlyOwnerAttr);
+  (CGov, "getMinEnergyForPropose", VPlain, View);
+  (CGov, "getMinFeeForPropose", VPlain, View);
+  (CGov, "getQuorum", VPlain, View);
+  (CGov, "getVotingDelayInBlocks", VPlain, View);
+  (CGov, "getVotingPeriodInBlocks", VPlain, View);
+  (CGov, "getFeeTokenId", VPlain, View);
+  (CGov, "getWithdrawPercentageDefeated", VPlain, View);
+  (CGov, "getProposals", VPlain, View);
+  (CGov, "getUserVotedProposals", VPlain, View);
+  (CGov, "getProposalVotes", VPlain, View);
+  (CGov, "getProposalStatus", VPlain, View);
+  (CGov, "changeFeesCollectorAddress", VPlain, OnlyOwnerAttr);
+  (CGov, "getFeesCollectorAddress", VPlain, View);
+  (CGov, "setEnergyFactoryAddress", VPlain, OnlyOwnerAttr);
+  (CGov, "getEnergyFactoryAddress", VPlain, View);
+  (CGov, "addAdmin", VPlain, OwnerPerm);
+  (CGov, "removeAdmin", VPlain, OwnerPerm);
+  (CGov, "updateOwnerOrAdmin", VPlain, OnlyOwnerAttr);
+  (CGov, "getPermissions", VPlain, View);
+  (* ---- price-discovery *)
+  (CPriceDisc, "init", VPlain, Lifecycle);
+  (CPriceDisc, "upgrade", VPlain, Lifecycle);
+  (CPriceDisc, "deposit", VPlain, UserFunds SAny);
+  (CPriceDisc, "withdraw", VPlain, UserFunds SAny);
+  (CPriceDisc, "redeem", VPlain, UserFunds SAny);
+  (CPriceDisc, "getCurrentPrice", VPlain, View);
+  (CPriceDisc, "getMinLaunchedTokenPrice", VPlain, View);
+  (CPriceDisc, "getPricePrecision", VPlain, View);
+  (CPriceDisc, "getLaunchedTokenId", VPlain, View);
+  (CPriceDisc, "getAcceptedTokenId", VPlain, View);
+  (CPriceDisc, "getLaunchedTokenBalance", VPlain, View);
+  (CPriceDisc, "getAcceptedTokenBalance", VPlain, View);
+  (CPriceDisc, "getStartBlock", VPlain, View);
+  (CPriceDisc, "getEndBlock", VPlain, View);
+  (CPriceDisc, "setLockingScAddress", VPlain, OnlyOwnerAttr);
+  (CPriceDisc, "setUnlockEpoch", VPlain, OnlyOwnerAttr);
+  (CPriceDisc, "getLockingScAddress", VPlain, View);
+  (CPriceDisc, "getUnlockEpoch", VPlain, View);
+  (CPriceDisc, "getCurrentPhase", VPlain, View);
+  (CPriceDisc, "getNoLimitPhaseDurationBlocks", VPlain, View);
+  (CPriceDisc, "getLinearPenaltyPhaseDurationBlocks", VPlain, View);
+  (CPriceDisc, "getFixedPenaltyPhaseDurationBlocks", VPlain, View);
+  (CPriceDisc, "getPenaltyMinPercentage", VPlain, View);
+  (CPriceDisc, "getPenaltyMaxPercentage", VPlain, View);
+  (CPriceDisc, "getFixedPenaltyPercentage", VPlain, View);
+  (CPriceDisc, "issueRedeemToken", VPlain, OnlyOwnerAttr);
+  (CPriceDisc, "createInitialRedeemTokens", VPlain, OnlyOwnerAttr);
+  (CPriceDisc, "getRedeemTokenId", VPlain, View);
+  (CPriceDisc, "getRedeemTokenTotalCirculatingSupply", VPlain, View);
+  (* ---- permissions-hub *)
+  (CHub, "init", VPlain, Lifecycle);
+  (CHub, "upgrade", VPlain, Lifecycle);
+  (CHub, "whitelist", VPlain, UserNoFunds SAny);
+  (CHub, "removeWhitelist", VPlain, UserNoFunds SAny);
+  (CHub, "blacklist", VPlain, OnlyOwnerAttr);
+  (CHub, "removeBlacklist", VPlain, OnlyOwnerAttr);
+  (CHub, "isWhitelisted", VPlain, View);
+  (CHub, "getBlacklistedAddresses", VPlain, View)
+].
+Close Scope string_scope.
+
+(** ------------------------------------------------------------------ the executed configuration *)
+(** Permission bits each role holds in each contract, as the contracts' [init] functions and the
+    set-up calls of tools/sys_access.py (addAdmin, addToPauseWhitelist) leave them:
+    pair init (with admins): router and router owner get OWNER|PAUSE; farms / staking
+    (base_farm_init): owner OWNER|PAUSE, admins ADMIN; lkmex-transfer init: deployer OWNER;
+    governance-v2 init grants nothing, so nobody ever holds OWNER there (addAdmin cannot succeed). *)
+Definition has_pausable (c : contract) : bool :=
+  match c with CPair | CFarm | CFarmLocked | CStaking => true | _ => false end.
+
+Definition perms (c : contract) (r : role) : Z :=
+  match c, r with
+  | (CPair | CFarm | CFarmLocked | CStaking), ROwner => Z.lor PERM_OWNER PERM_PAUSE
+  | (CPair | CFarm | CFarmLocked | CStaking), RAdmin => PERM_ADMIN
+  | (CPair | CFarm | CFarmLocked | CStaking), RPauser => PERM_PAUSE
+  | CPair, RParty PRouter => Z.lor PERM_OWNER PERM_PAUSE
+  | CLkmex, ROwner => PERM_OWNER
+  | CLkmex, RAdmin => PERM_ADMIN
+  | _, _ => 0
+  end.
+
+(** counterparties that exist in the executed deployment of each contract *)
+Definition parties_of (c : contract) : list party :=
+  match c with
+  | CPair => [PWhitelistedSC; PRouter; PAdder]
+  | CRouter => [PAdder]
+  | CFarm | CFarmLocked | CStaking | CStakingProxy | CProxyDex => [PWhitelistedSC]
+  | CEnergy => [PWhitelistedSC; PUnstakeSC; POldFactory; PTransferSC]
+  | CUnstake => [PEnergyFactory]
+  | CFees => [PWhitelistedSC; PKnownContract]
+  | CGov => [PProposer]
+  | _ => []
+  end.
+
+Definition roles_of (c : contract) : list role := base_roles ++ map RParty (parties_of c).
+
+Definition states_of (c : contract) : list cstate :=
+  match c with
+  | CPair => [Inactive; PartialActive; Active; Paused]
+  | CFarm | CFarmLocked | CStaking | CEnergy => [Inactive; Active; Paused]
+  | CRouter | CFees => [Active; Paused]
+  | _ => [Active]
+  end.
+
+(** contracts whose pause / inactive state the property talks about *)
+Definition pausable_contract (c : contract) : bool :=
+  match c with CPair | CFarm | CFarmLocked | CStaking | CEnergy => true | _ => false end.
+
+Definition facts_of (c : contract) (r : role) : facts :=
+  mkFacts (role_eqb r ROwner) (perms c r)
+          (fun p => role_eqb r (RParty p))
+          (role_eqb r RAgentAuth || role_eqb r RAgentBlack)
+          (role_eqb r RAgentBlack).
+
+Definition pair_creation_open : bool := false.
+
+(** ------------------------------------------------------------------ verdicts *)
+Inductive verdict :=
+| VAllowed        (* must not be rejected for permission or state reasons *)
+| VPerm           (* must fail with a permission error *)
+| VState          (* must fail with a state error *)
+| VPermOrState.   (* must fail; either error may come first *)
+Definition verdict_id (v : verdict) : Z :=
+  match v with VAllowed => 0 | VPerm => 1 | VState => 2 | VPermOrState => 3 end.
+
+Definition decide (g s : bool) : verdict :=
+  match g, s with
+  | true, true => VAllowed | false, true => VPerm | true, false => VState | false, false => VPermOrState
+  end.
+
+Definition verdict_of (c : contract) (cl : class) (r : role) (st : cstate) : verdict :=
+  decide (guard_ok pair_creation_open (c_guard cl) (facts_of c r)) (state_ok (c_sreq cl) st).
+
+Definition allowed (cl : class) (c : contract) (r : role) (st : cstate) : bool :=
+  match verdict_of c cl r st with VAllowed => true | _ => false end.
+
+(** observed outcome classes of a call on the real contract *)
+Inductive outcome := OOk | OPermErr | OStateErr | OOtherErr.
+Definition outcome_id (o : outcome) : Z :=
+  match o with OOk => 0 | OPermErr => 1 | OStateErr => 2 | OOtherErr => 3 end.
+
+(** (a) a caller that is not allowed never succeeds and fails with the permission / state class;
+    (b) an allowed caller is never rejected for permission / state reasons (it may still fail for
+    other reasons: arguments, amounts). *)
+Definition agrees (v : verdict) (o : outcome) : bool :=
+  match v, o with
+  | VAllowed, (OOk | OOtherErr) => true
+  | VPerm, OPermErr => true
+  | VState, OStateErr => true
+  | VPermOrState, (OPermErr | OStateErr) => true
+  | _, _ => false
+  end.
+
+Definition lookup (c : contract) (e : string) (v : variant) : option class :=
+  match find (fun r => contract_eqb (row_contract r) c && String.eqb (row_endpoint r) e
+                       && variant_eqb (row_variant r) v) access_table with
+  | Some r => Some (row_class r)
+  | None => None
+  end.
+
+(** ------------------------------------------------------------------ permissions + pausable modules
+    State: permission bits per address (association list on address ids) and the stored State.
+    [OWNER_ADDR] is the chain owner (for #[only_owner]). *)
+Record pm_state := mkPm { pm_perms : list (Z * Z); pm_state_val : Z; pm_chain_owner : Z }.
+
+Inductive pm_op :=
+| PmAddAdmin (caller a : Z)
+| PmRemoveAdmin (caller a : Z)
+| PmUpdateOwnerOrAdmin (caller prev : Z)
+| PmAddPauser (caller a : Z)          (* addToPauseWhitelist with one address *)
+| PmRemovePauser (caller a : Z)
+| PmPause (caller : Z)
+| PmResume (caller : Z)
+| PmSetStateActiveNoSwaps (caller : Z).   (* pair config *)
+
+Definition pm_get (s : pm_state) (a : Z) : Z := aget (pm_perms s) a.
+Definition pm_set (s : pm_state) (a v : Z) : pm_state := mkPm (aset (pm_perms s) a v) (pm_state_val s) (pm_chain_owner s).
+Definition pm_set_state (s : pm_state) (v : Z) : pm_state := mkPm (pm_perms s) v (pm_chain_owner s).
+
+Definition pm_step (s : pm_state) (op : pm_op) : result pm_state :=
+  match op with
+  | PmAddAdmin c a =>
+      do _ <- require_any_of (pm_get s c) PERM_OWNER;
+      Ok (pm_set s a (Z.lor (pm_get s a) PERM_ADMIN))
+  | PmRemoveAdmin c a =>
+      do _ <- require_any_of (pm_get s c) PERM_OWNER;
+      Ok (pm_set s a (Z.ldiff (pm_get s a) PERM_ADMIN))
+  | PmUpdateOwnerOrAdmin c prev =>
+      check (c =? pm_chain_owner s) else EPerm;
+      let p := pm_get s prev in
+      Ok (pm_set (pm_set s prev 0) c p)
+  | PmAddPauser c a =>
+      do _ <- require_any_of (pm_get s c) PERM_OWNER;
+      Ok (pm_set s a (Z.lor (pm_get s a) PERM_PAUSE))
+  | PmRemovePauser c a =>
+      do _ <- require_any_of (pm_get s c) PERM_OWNER;
+      Ok (pm_set s a (Z.ldiff (pm_get s a) PERM_PAUSE))
+  | PmPause c =>
+      do _ <- require_any_of (pm_get s c) PERM_PAUSE;
+      Ok (pm_set_state s ST_Inactive)
+  | PmResume c =>
+      do _ <- require_any_of (pm_get s c) PERM_PAUSE;
+      Ok (pm_set_state s ST_Active)
+  | PmSetStateActiveNoSwaps c =>
+      do _ <- require_any_of (pm_get s c) PERM_OWNER;
+      Ok (pm_set_state s ST_PartialActive)
+  end.
+
+Definition pm_caller (op : pm_op) : Z :=
+  match op with
+  | PmAddAdmin c _ | PmRemoveAdmin c _ | PmUpdateOwnerOrAdmin c _ | PmAddPauser c _ | PmRemovePauser c _
+  | PmPause c | PmResume c | PmSetStateActiveNoSwaps c => c
+  end.
+
+Definition pm_step_total (s : pm_state) (op : pm_op) : pm_state :=
+  match pm_step s op with Ok s' => s' | Err _ => s end.
+Definition pm_run (s : pm_state) (ops : list pm_op) : pm_state := fold_left pm_step_total ops s.
+
+(** ------------------------------------------------------------------ permissions hub
+    whitelist: pairs (user, agent); blacklist: agents.  Mirrors dex/permissions-hub/src/lib.rs
+    (one address per call). *)
+Record hub := mkHub { h_wl : list (Z * Z); h_black : list Z; h_owner : Z }.
+
+Definition pair_eqb (a b : Z * Z) : bool := (fst a =? fst b) && (snd a =? snd b).
+Definition zmem (x : Z) (l : list Z) : bool := existsb (Z.eqb x) l.
+Definition pmem (x : Z * Z) (l : list (Z * Z)) : bool := existsb (pair_eqb x) l.
+Definition zremove (x : Z) (l : list Z) : list Z := filter (fun y => negb (y =? x)) l.
+Definition premove (x : Z * Z) (l : list (Z * Z)) : list (Z * Z) := filter (fun y => negb (pair_eqb y x)) l.
+
+Inductive hub_op :=
+| HWhitelist (caller a : Z)
+| HRemoveWhitelist (caller a : Z)
+| HBlacklist (caller a : Z)
+| HRemoveBlacklist (caller a : Z).
+
+Definition hub_step (h : hub) (op : hub_op) : result hub :=
+  match op with
+  | HWhitelist c a =>
+      check negb (pmem (c, a) (h_wl h)) else EGuard;          (* "Address is already whitelisted" *)
+      Ok (mkHub ((c, a) :: h_wl h) (h_black h) (h_owner h))
+  | HRemoveWhitelist c a =>
+      check pmem (c, a) (h_wl h) else EGuard;                 (* "Address is not whitelisted" *)
+      Ok (mkHub (premove (c, a) (h_wl h)) (h_black h) (h_owner h))
+  | HBlacklist c a =>
+      check (c =? h_owner h) else EPerm;
+      Ok (mkHub (h_wl h) (if zmem a (h_black h) then h_black h else a :: h_black h) (h_owner h))
+  | HRemoveBlacklist c a =>
+      check (c =? h_owner h) else EPerm;
+      Ok (mkHub (h_wl h) (zremove a (h_black h)) (h_owner h))
+  end.
+
+Definition hub_step_total (h : hub) (op : hub_op) : hub :=
+  match hub_step h op with Ok h' => h' | Err _ => h end.
+Definition hub_run (h : hub) (ops : list hub_op) : hub := fold_left hub_step_total ops h.
+
+(** the hub's view isWhitelisted(user, agent) *)
+Definition is_whitelisted (h : hub) (user agent : Z) : bool :=
+  negb (zmem agent (h_black h)) && pmem (user, agent) (h_wl h).
+
+(** what a farm sees of a caller [c] acting for [user]: hub answer + its own contract whitelist *)
+Definition hub_facts (h : hub) (sc_whitelist : list Z) (user c : Z) : facts :=
+  mkFacts false 0 (fun p => match p with PWhitelistedSC => zmem c sc_whitelist | _ => false end)
+          (pmem (user, c) (h_wl h)) (zmem c (h_black h)).
